@@ -677,7 +677,7 @@ class Ctx:
         self.decisions: List[int] = []
         self.labels: List[str] = []
         self.solver = z3.Solver()
-        self.solver.set('timeout', explorer.branch_timeout_ms)
+        self.solver.set('timeout', explorer.incremental_timeout_ms)
         self.pc: List[Any] = []
         self.counters: Dict[str, int] = {}
         self.inputs: Dict[str, Any] = {}  # name -> z3 const (for models)
@@ -774,8 +774,12 @@ class Ctx:
             self.pc.append(cond)
             return ch == 1
         t0 = time.time()
-        r_true = self.solver.check(t)
-        r_false = self.solver.check(z3.Not(t))
+        r_true = self._safe_check(t)
+        if r_true == z3.unknown:
+            r_true = self._fresh_check(t, self.ex.branch_timeout_ms)[0]
+        r_false = self._safe_check(z3.Not(t))
+        if r_false == z3.unknown:
+            r_false = self._fresh_check(z3.Not(t), self.ex.branch_timeout_ms)[0]
         self.ex.branch_seconds += time.time() - t0
         can_t = r_true != z3.unsat
         can_f = r_false != z3.unsat
@@ -791,6 +795,32 @@ class Ctx:
         self.solver.add(cond)
         self.pc.append(cond)
         return ch == 1
+
+    def _fresh_check(self, extra: Any, timeout_ms: int) -> Any:
+        """Non-incremental query: z3's one-shot string solver decides much more than the incremental core."""
+        s2 = z3.Solver()
+        s2.set('timeout', timeout_ms)
+        s2.add(*self.pc)
+        if extra is not None:
+            s2.add(extra)
+        try:
+            r = s2.check()
+        except z3.Z3Exception as e:
+            self.ex.solver_exceptions.append(str(e))
+            return z3.unknown, None
+        return r, (s2.model() if r == z3.sat else None)
+
+    def _safe_check(self, *assumptions: Any) -> Any:
+        try:
+            return self.solver.check(*assumptions)
+        except z3.Z3Exception as e:
+            # e.g. "reached max unfolding" of the sequence solver: not a verdict
+            self.ex.solver_exceptions.append(str(e))
+            s2 = z3.Solver()
+            s2.set('timeout', self.ex.incremental_timeout_ms)
+            s2.add(*self.pc)
+            self.solver = s2
+            return z3.unknown
 
     def choose(self, n: int, label: str = 'ch') -> int:
         """Non-deterministic choice among n alternatives, all explored."""
@@ -848,17 +878,20 @@ class Ctx:
             ob.backend = 'simplifier'
             return
         t0 = time.time()
-        self.solver.set('timeout', self.ex.check_timeout_ms)
-        r = self.solver.check(z3.Not(t))
-        self.solver.set('timeout', self.ex.branch_timeout_ms)
+        r = self._safe_check(z3.Not(t))
+        model = self.solver.model() if r == z3.sat else None
+        backend = 'z3-inproc-incremental'
+        if r == z3.unknown:
+            r, model = self._fresh_check(z3.Not(t), self.ex.check_timeout_ms)
+            backend = 'z3-inproc-oneshot'
         ob.seconds = time.time() - t0
         if r == z3.unsat:
             ob.status = 'discharged'
-            ob.backend = 'z3-inproc'
+            ob.backend = backend
         elif r == z3.sat:
             ob.status = 'refuted'
-            ob.backend = 'z3-inproc'
-            ob.model = self._model_dict(self.solver.model())
+            ob.backend = backend
+            ob.model = self._model_dict(model)
         else:
             ob.status = 'unknown'
             ob.backend = 'z3-inproc'
@@ -871,7 +904,7 @@ class Ctx:
     def cover(self, name: str) -> None:
         """Reachability canary: this point must be reachable on some path."""
         self.ex.covers.setdefault(name, 0)
-        if self.solver.check() != z3.unsat:
+        if self._safe_check() != z3.unsat:
             self.ex.covers[name] += 1
 
     def _model_dict(self, m: Any) -> Dict[str, Any]:
@@ -912,6 +945,8 @@ class Explorer:
         self.str_axioms: Dict[str, Any] = {}
         self.codec_handler: Any = None
         self.path_log: List[Dict[str, Any]] = []
+        self.solver_exceptions: List[str] = []
+        self.incremental_timeout_ms = 1000
 
     def push(self, prefix: List[int]) -> None:
         self.pending.append(prefix)
@@ -961,3 +996,110 @@ def veq(a: Any, b: Any) -> Any:
 
 
 cur_interp_equals = veq
+
+
+# ---------------------------------------------------------------------------
+# mutable symbolic list (used when a list's length is not statically known,
+# e.g. a list appended to inside a loop that is cut by an invariant)
+
+
+class SList:
+    """Mutable list of str / bytes elements of symbolic length, kept as a summary.
+
+    The summary is (n, joined, first, last): the length, the concatenation of all
+    elements (a ghost that contracts use for "the bytes collected so far"), and
+    the first / last element when n >= 1.  Only operations that the summary
+    determines are supported (append, insert(0, x), extend, len, truth, [0], [-1],
+    ''.join); anything else makes the function unreached.
+    """
+
+    __pyvc_symbolic__ = True
+    __pyvc_stub__ = True
+
+    def __init__(self, kind: str, n: Any = 0, joined: Any = None, first: Any = None, last: Any = None) -> None:
+        self.kind = kind
+        empty = '' if kind == 'str' else b''
+        self.n = n
+        self.joined = joined if joined is not None else empty
+        self.first = first if first is not None else empty
+        self.last = last if last is not None else empty
+
+    @staticmethod
+    def from_list(kind: str, items: Any) -> 'SList':
+        sl = SList(kind)
+        for x in items:
+            sl.append(x)
+        return sl
+
+    def _cat(self, a: Any, b: Any) -> Any:
+        return mk_str(z3.Concat(_s(a), _s(b)), self.kind)
+
+    def append(self, x: Any) -> None:
+        was_empty = veq(self.n, 0)
+        self.first = Ite(was_empty, x, self.first)
+        self.last = x
+        self.joined = self._cat(self.joined, x)
+        self.n = self.n + 1
+
+    def insert(self, i: Any, x: Any) -> None:
+        if not (isinstance(i, int) and i == 0):
+            raise Unreached('SList.insert at a position other than 0')
+        was_empty = veq(self.n, 0)
+        self.last = Ite(was_empty, x, self.last)
+        self.first = x
+        self.joined = self._cat(x, self.joined)
+        self.n = self.n + 1
+
+    def extend(self, xs: Any) -> None:
+        if isinstance(xs, SList):
+            a_empty = veq(self.n, 0)
+            b_empty = veq(xs.n, 0)
+            self.first = Ite(a_empty, xs.first, self.first)
+            self.last = Ite(b_empty, self.last, xs.last)
+            self.joined = self._cat(self.joined, xs.joined)
+            self.n = self.n + xs.n
+            return
+        for x in xs:
+            self.append(x)
+
+    def __pyvc_len__(self) -> Any:
+        return self.n
+
+    def __pyvc_truth__(self) -> Any:
+        return self.n > 0 if is_sym(self.n) else self.n > 0
+
+    def __pyvc_getitem__(self, k: Any) -> Any:
+        if isinstance(k, int) and k in (0, -1):
+            c = cur()
+            if c.branch(_b(veq(self.n, 0)), label='index-oob'):
+                c.raise_py(IndexError, 'list index out of range')
+            return self.first if k == 0 else self.last
+        raise Unreached('SList index other than 0 / -1')
+
+    def __pyvc_havoc__(self, ctx: 'Ctx', base: str) -> 'SList':
+        n = ctx.fresh_int(base + '_n')
+        joined = ctx.fresh_str(base + '_joined', self.kind)
+        first = ctx.fresh_str(base + '_first', self.kind)
+        last = ctx.fresh_str(base + '_last', self.kind)
+        # facts that hold for every list and its summary
+        ctx.assume(n >= 0)
+        ctx.assume(z3.Implies(n.t == 0, z3.Length(joined.t) == 0))
+        ctx.assume(z3.Implies(n.t == 1, z3.And(joined.t == first.t, joined.t == last.t)))
+        ctx.assume(z3.Implies(n.t >= 1, z3.And(z3.PrefixOf(first.t, joined.t), z3.SuffixOf(last.t, joined.t))))
+        return SList(self.kind, n, joined, first, last)
+
+    def __pyvc_iter__(self) -> Any:
+        raise Unreached('iteration over a list of symbolic length without an invariant')
+
+    def __repr__(self) -> str:
+        return '<SList %s n=%s>' % (self.kind, self.n)
+
+
+def Joined(xs: Any, empty: Any = b'') -> Any:
+    """Concatenation of a list of str/bytes values (python list or SList)."""
+    if isinstance(xs, SList):
+        return xs.joined
+    out = empty
+    for x in xs:
+        out = out + x if not isinstance(x, SStr) or isinstance(out, SStr) else x.__radd__(out)
+    return out
